@@ -33,6 +33,7 @@ const (
 	dCall               // address passed to a call the engine does not model
 	dEntry              // value on entry to the function
 	dStructCopy         // field col of a struct value stored over the whole object (*p = T{...} / *p = *q)
+	dHelper             // field col of an object handed by pointer to a package helper that writes it (value at the helper's returns)
 )
 
 type def struct {
@@ -43,6 +44,8 @@ type def struct {
 	col   int
 	clos  *ssa.Function // dClosure
 	fv    *ssa.FreeVar  // the closure's free variable for the cell
+	call  ssa.CallInstruction // dHelper
+	param *ssa.Parameter      // dHelper: the helper's parameter that points to the object
 }
 
 type defset []*def
@@ -318,7 +321,20 @@ func (m *Model) reaching(fn *ssa.Function) *reachDefs {
 						if l, ok := m.locOf(a, cur); ok && l.field == -1 {
 							if al, ok := l.obj.(*ssa.Alloc); ok {
 								if _, isStruct := al.Type().Underlying().(*types.Pointer).Elem().Underlying().(*types.Struct); isStruct {
-									continue // pointer to a struct object (e.g. the event): fields are tracked individually
+									// pointer to a struct object (e.g. the event): fields are tracked individually;
+									// a package helper that writes some of them defines those (value at its returns)
+									if callee != nil && !cc.IsInvoke() && m.inPkg(callee) && ai < len(callee.Params) {
+										for _, fi := range m.paramFieldWrites(callee, ai, 0) {
+											k := fmt.Sprintf("%p/%d/%d", ins, ai, fi)
+											d := callDefs[k]
+											if d == nil {
+												d = &def{kind: dHelper, instr: ins, call: x, param: callee.Params[ai], col: fi}
+												callDefs[k] = d
+											}
+											cur[loc{al, fi}] = defset{d}
+										}
+									}
+									continue
 								}
 							}
 							k := fmt.Sprintf("%p/%d", ins, ai)
@@ -670,6 +686,30 @@ func (e *termEval) defsTerm(l loc, ds defset, at ssa.Instruction, fr *frame) *Te
 				ts = append(ts, sf)
 			} else {
 				ts = append(ts, &Term{Kind: "field", Name: fmt.Sprint(d.col), Args: []*Term{e.term(src, d.store, fr)}})
+			}
+		case dHelper:
+			callee := d.call.Common().StaticCallee()
+			if callee == nil || fr == nil || fr.depth >= 4 {
+				ts = append(ts, &Term{Kind: "opaque", Name: "written-by-helper@" + e.m.declName(d.instr.Parent())})
+				break
+			}
+			cfr := fr.inline(d.call, callee)
+			crd := e.m.reaching(callee)
+			n0 := len(ts)
+			for _, ret := range returnsOf(callee) {
+				if e.m.isFailureReturn(ret) {
+					continue
+				}
+				st := crd.at[ret]
+				l2 := loc{d.param, d.col}
+				ds2, have := st[l2]
+				if !have {
+					ds2 = defset{entryDef}
+				}
+				ts = append(ts, e.defsTerm(l2, ds2, ret, cfr))
+			}
+			if len(ts) == n0 {
+				ts = append(ts, &Term{Kind: "opaque", Name: "written-by-helper@" + e.m.declName(d.instr.Parent())})
 			}
 		case dCall:
 			ts = append(ts, &Term{Kind: "opaque", Name: "written-by-call@" + e.m.declName(d.instr.Parent())})
@@ -1470,4 +1510,59 @@ func (e *termEval) structFieldOfCall(call *ssa.Call, idx, field int, fr *frame, 
 		return nil
 	}
 	return mkPhi(ts)
+}
+
+// paramFieldWrites: the (flattened) field indices of the object parameter #pi of fn points to that
+// fn may write: stores through the parameter, Scan destinations, and writes of helpers it hands
+// the pointer on to.
+func (m *Model) paramFieldWrites(fn *ssa.Function, pi int, depth int) []int {
+	if fn == nil || pi >= len(fn.Params) || depth > 2 || fn.Blocks == nil {
+		return nil
+	}
+	p := fn.Params[pi]
+	set := map[int]bool{}
+	addAddr := func(a ssa.Value) {
+		fa, ok := stripConv(a).(*ssa.FieldAddr)
+		if !ok {
+			return
+		}
+		if stripConv(fieldRoot(fa)) != ssa.Value(p) {
+			return
+		}
+		if l, ok := m.locOf(fa, nil); ok && l.field >= 0 {
+			set[l.field] = true
+		}
+	}
+	for _, b := range fn.Blocks {
+		for _, ins := range b.Instrs {
+			switch x := ins.(type) {
+			case *ssa.Store:
+				addAddr(x.Addr)
+			case ssa.CallInstruction:
+				cc := x.Common()
+				callee := cc.StaticCallee()
+				for ai, arg := range cc.Args {
+					a := stripConv(arg)
+					if a == ssa.Value(p) && callee != nil && m.inPkg(callee) && callee != fn {
+						for _, fi := range m.paramFieldWrites(callee, ai, depth+1) {
+							set[fi] = true
+						}
+					}
+				}
+			}
+		}
+	}
+	for _, sc := range m.scanCalls() {
+		if sc.Fn == fn {
+			for _, d := range sc.Dests {
+				addAddr(d)
+			}
+		}
+	}
+	var out []int
+	for fi := range set {
+		out = append(out, fi)
+	}
+	sort.Ints(out)
+	return out
 }
